@@ -10,6 +10,7 @@ var vEntries = map[string]interface{}{
 	"VAssign": VAssign,
 	"VScaleDown": VScaleDown,
 	"VLemmaSwr": VLemmaSwr,
+	"VTwoReplicasCycles": VTwoReplicasCycles,
 	"VTwoReplicas": VTwoReplicas,
 	"VTransfer": VTransfer,
 	"VCycleExplore": VCycleExplore,
